@@ -49,12 +49,14 @@ def base_messages():
         "dpr": template(M.DPR, CMD_DP, True), "dpa": template(M.DPA, CMD_DP, False)})
 
 
-def transport():
+def transport(mask=None):
+    """`events_mask` 1 = read only, 3 = a write is in progress (the transport thread has not finished writing
+    the previous stream): contracts that must hold whatever the transport is doing pass both"""
     return T.Obj(TR.TcpClient, idict={
         "is_connected": T.Const(True), "_stop_threads": T.Bool(),
         "events": T.OneOf(T.ListOf(), T.ListOf(T.OpaqueS())),
         "tracking_events_count": T.Int(lo=0, hi=100000),
-        "events_mask": T.Const(1),
+        "events_mask": mask if mask is not None else T.Const(1),
         "write_mode_on": T.Sync("event", flag=True), "read_mode_on": T.Sync("event", flag=True)})
 
 
